@@ -15,7 +15,7 @@ from ..compiled import CompiledView
 from ..report import AnalysisError, Check
 from ..roles import rule_apply_window, rule_record_to_graph, rule_to_timings
 from .c07 import rule_exec_order
-from .c08 import rule_map
+from .c08 import rule_map, rule_sizes
 from ..symeval import SymEval
 
 S = T.sym
@@ -161,4 +161,5 @@ def run(chk: Check, model):
     rule_chain(chk, model, "C01.chain", cv)
     chk.rule("C01.buffer", "payload lookup: the compiled runtime reads each window entry's payload at the same ring index the producer wrote it to (see C08.map)")
     rule_map(chk, model, cv, "C01.buffer")
+    rule_sizes(chk, model, "C01.buffer")
     rule_exec_order(chk, model, "C01.order", cv)
